@@ -91,7 +91,7 @@ def run(ctx, res):
         if any(r["sel"][0] == "ok" and 0 < len(r["sel"][1]) < h["spec"]["n"] for r in c["out"]["rounds"]):
             res.nontrivial.add(repr((h["spec"]["nums"], h["spec"]["styles"], h["sizes"], h["modes"])))
     res.exhaustive = True
-    res.rule = (f"exhaustive: every style pattern of <= {ctx.n(4, 5)} cards over 2 contests x every size vector 0..available "
+    res.rule = (f"exhaustive: every style pattern of <= 5 cards over 2 contests x every size vector 0..available "
                 f"(fresh draw, then continued from the selection of a smaller-or-equal vector), all orders of the sample numbers for "
                 f"<= {ctx.n(3, 4)} cards and one random order per pattern above, objects reused between calls; random: 0-14 cards, "
                 "1-4 contests in shuffled dict order, contests on cards that are not audited, phantoms, str/int/tuple ids, "
